@@ -37,6 +37,9 @@ plan("C04", "exploration",
      "state machine incl. final export, plus the released-signature ledger.",
      q, t)
 q, t = tiers(150, 60, 8000, 1200)
+q["layers"] = [dict(runs=150, budget_s=60, params="")] * 15 + [dict(runs=6, budget_s=60, params="mode=free")]
+t["layers"] = [dict(runs=8000, budget_s=1200, params="")] * 15 + [dict(runs=300, budget_s=1200, params="mode=free")]
+q["require_probes"] = t["require_probes"] = ["free_running_runs_completed", "drain_phases"]
 plan("C15", "exploration",
      "one case = one seeded run as for C04 (thorough adds sustained-load runs of 16-64 requests); distinct = distinct schedule signature; "
      "non-trivial = at least two requests in flight at once. Oracle: the enabled set (decided by TryLock on the real mutexes) is never empty "
@@ -200,15 +203,15 @@ plan("C14", "exploration",
 REAL_W5 = ("REAL: services/api/grpc (gRPC server, TLS 1.3 with RequireAndVerifyClientCert, request-id/source-ip/client-info interceptors), all five registered services' handlers and "
            "services behind them on a loopback port; the repository's own test certificates and authority; clients built with crypto/tls. No bubble, no scheduler: calls are sequential. STUB: DKG sender.")
 q, t = tiers(50, 120, 50, 300)
-q["layers"] = all_matrix_layers(60, 120)
-t["layers"] = all_matrix_layers(60, 300)
+q["layers"] = all_matrix_layers(70, 120)
+t["layers"] = all_matrix_layers(70, 300)
 q["exhaustive"] = t["exhaustive"] = True
 q["require_complete"] = t["require_complete"] = [("matrix_cases", "matrix_total")]
 q["require_probes"] = t["require_probes"] = ["untrusted_calls", "permitted_calls_served"]
 plan("C19", "other",
      "complete table: server configuration {authority configured, no authority configured} x every method of the five registered gRPC services (16) x caller credential {plaintext, TLS without "
      "client certificate, self-signed with a permitted name, other authority with a permitted name, authority from the host trust store with a permitted name, certificate chained through a "
-     "non-CA certificate of the configured authority, valid unpermitted client, valid client-test01, valid client-test02, valid peer certificate, a valid certificate followed in the chain by a self-made certificate bearing a permitted name (two variants), a self-made certificate with a permitted name followed by a genuine client's public certificate} x target wallet {Wallet 1, Wallet 2} = 832 cases.",
+     "non-CA certificate of the configured authority, valid unpermitted client, valid client-test01, valid client-test02, valid peer certificate, a valid certificate followed in the chain by a self-made certificate bearing a permitted name (two variants), a self-made certificate with a permitted name followed by a genuine client's public certificate, a self-made certificate that claims to be an authority and bears a permitted name (alone, followed by a genuine client's public certificate, followed by the configured authority's certificate)} x target wallet {Wallet 1, Wallet 2} = 1024 cases.",
      q, t, real_vs_stub=REAL_W5,
      explanation="No scheduler and no fault sequence applies to this property; the check is an exhaustive table over a live in-process daemon edge (real gRPC, TLS, interceptors, handlers, services) "
                  "attacked by hostile and legitimate clients. Callers without a certificate from the configured authority must obtain no response message at all and change no state (with no "
@@ -217,7 +220,9 @@ plan("C19", "other",
      assumptions=["Go crypto/tls and x509 verification are trusted", "the host trust store is pointed (SSL_CERT_FILE) at a generated foreign authority to cover servers that fall back to system roots"])
 
 q, t = tiers(150, 90, 6000, 1500)
-q["require_probes"] = t["require_probes"] = ["canaries_served", "requests"]
+q["layers"] = [dict(runs=150, budget_s=90, params="")] * 14 + [dict(runs=150, budget_s=90, params="mode=free")] * 2
+t["layers"] = [dict(runs=6000, budget_s=1500, params="")] * 14 + [dict(runs=2000, budget_s=1500, params="mode=free")] * 2
+q["require_probes"] = t["require_probes"] = ["canaries_served", "requests", "free_running_volleys"]
 plan("C20", "exploration",
      "one case = one generated request: structure-aware generation per RPC of Lister, Signer (5), AccountManager (3), WalletManager (2) and the five key-generation messages (from non-peers and "
      "a peer), byte fields of length {0,1,3,4,31,32,33,47,48,49,96,4096} or absent, domains with a valid type prefix but wrong length, absent sub-messages and identifiers, extreme integers, "
